@@ -919,17 +919,20 @@ where
 #[allow(missing_docs)]
 #[doc(hidden)]
 impl<P, T> PrefixMap<P, T> {
-    /// Build a map from raw parts. `arena_cap` / `free_cap` reserve capacity for the arena and the
-    /// free list (at least the given lengths).
+    /// Build a map from raw parts. The free list consists of the first `free_len` entries of
+    /// `free`. `arena_cap` / `free_cap` are the exact capacities reserved for the arena and the
+    /// free list (must not be smaller than the lengths).
     #[allow(clippy::type_complexity)]
     pub fn __verif_from_raw(
         nodes: Vec<(P, Option<T>, Option<usize>, Option<usize>)>,
         free: &[usize],
+        free_len: usize,
         count: usize,
         arena_cap: usize,
         free_cap: usize,
     ) -> Self {
-        let mut v = Vec::with_capacity(arena_cap.max(nodes.len()));
+        assert!(nodes.len() <= arena_cap && free_len <= free_cap && free_len <= free.len());
+        let mut v = Vec::with_capacity(arena_cap);
         for (prefix, value, left, right) in nodes {
             v.push(Node {
                 prefix,
@@ -938,9 +941,11 @@ impl<P, T> PrefixMap<P, T> {
                 right,
             });
         }
-        let mut f = Vec::with_capacity(free_cap.max(free.len()));
-        for x in free {
-            f.push(*x);
+        let mut f = Vec::with_capacity(free_cap);
+        for (i, x) in free.iter().enumerate() {
+            if i < free_len {
+                f.push(*x);
+            }
         }
         Self {
             table: Table::__verif_new(v),
